@@ -60,6 +60,19 @@ CLAIMS = {
   "technique": "static analysis: stale-cursor typestate over the continuation graph, length/piece multiset agreement, dominance rules",
   "design_ref": "DESIGN.md section 4, C09",
  },
+ "C07": {
+  "text": "State-discipline clauses of the buffered reader and writer decided on every path: monotone failure flag and its guards at "
+          "every launch/reservation, one failure-callback site in return position, in-flight buffer detached/recorded/released "
+          "exactly, the transport never asked for zero bytes (this rule located a real assertion failure on zero-length writes, now "
+          "fixed; proved on the repaired code by a small disjunctive linear-fact domain), slot discipline of the three pending fields, "
+          "the window expressions given to the transport/peek/reserve, the order of the compaction triple, status routing and the "
+          "immediate-success condition. Necessary conditions of stream preservation; the refinement itself is not decided.",
+  "note": "Trusted: network_read/write contracts (C06), STAILQ macros. Assumed (recorded in evidence): the reader's capacity "
+          "buflen - datalen is non-zero at its launch, which follows from the three window adjustments by an argument the fact domain "
+          "cannot carry. Not decided: equality of the delivered byte sequence with the sent one over all histories.",
+  "technique": "static analysis: linear-fact dataflow (preconditions, guards), dominance/typestate rules, sibling agreement",
+  "design_ref": "DESIGN.md section 4, C07",
+ },
 }
 
 NOT_APPLICABLE = {
